@@ -198,6 +198,9 @@ pub struct CompilerSession {
     pending: std::sync::Arc<
         std::sync::Mutex<Option<std::sync::Arc<zydeco_statics::query::PendingParts>>>,
     >,
+    /// Held from filling `pending` to the query that empties it: the slot is
+    /// shared with every snapshot, and each of them may check a program.
+    pending_turn: Arc<std::sync::Mutex<()>>,
 }
 
 impl Default for CompilerSession {
@@ -206,6 +209,7 @@ impl Default for CompilerSession {
             storage: Storage::default(),
             files: Arc::new(DashMap::new()),
             pending: std::sync::Arc::new(std::sync::Mutex::new(None)),
+            pending_turn: Arc::new(std::sync::Mutex::new(())),
         }
     }
 }
@@ -402,9 +406,18 @@ impl CompilerSession {
         scoped: zydeco_surface::scoped::arena::ScopedArena,
         root: zydeco_surface::scoped::syntax::TermId,
     ) -> zydeco_statics::query::TyckOutput {
-        *self.pending.lock().expect("pending check slot poisoned") =
-            Some(Arc::new(zydeco_statics::query::PendingParts { spans, prim, scoped, root }));
-        let data = zydeco_statics::query::intern_pending(self);
+        let data = {
+            // A cancelled query unwinds through this guard; the next caller
+            // overwrites whatever it left in the slot.
+            let _turn = self
+                .pending_turn
+                .lock()
+                .unwrap_or_else(std::sync::PoisonError::into_inner);
+            *self.pending.lock().expect("pending check slot poisoned") =
+                Some(Arc::new(zydeco_statics::query::PendingParts { spans, prim, scoped, root }));
+            let ticket = zydeco_statics::query::PendingTicket::fresh(self);
+            zydeco_statics::query::intern_pending_for(self, ticket)
+        };
         zydeco_statics::query::check_source(self, data)
     }
 
